@@ -574,7 +574,7 @@ func (d *Document) updateEndnotesFile() {
 
 // addFootnoteRelationship 添加脚注关系
 func (d *Document) addFootnoteRelationship() {
-	relationshipID := fmt.Sprintf("rId%d", len(d.relationships.Relationships)+1)
+	relationshipID := nextRelationshipID(d.relationships.Relationships, 1)
 
 	relationship := Relationship{
 		ID:     relationshipID,
@@ -586,7 +586,7 @@ func (d *Document) addFootnoteRelationship() {
 
 // addEndnoteRelationship 添加尾注关系
 func (d *Document) addEndnoteRelationship() {
-	relationshipID := fmt.Sprintf("rId%d", len(d.relationships.Relationships)+1)
+	relationshipID := nextRelationshipID(d.relationships.Relationships, 1)
 
 	relationship := Relationship{
 		ID:     relationshipID,
@@ -783,7 +783,7 @@ func (d *Document) saveSettings(settings *Settings) error {
 
 // addSettingsRelationship 添加设置文件关系
 func (d *Document) addSettingsRelationship() {
-	relationshipID := fmt.Sprintf("rId%d", len(d.relationships.Relationships)+1)
+	relationshipID := nextRelationshipID(d.relationships.Relationships, 1)
 
 	relationship := Relationship{
 		ID:     relationshipID,
